@@ -81,7 +81,7 @@ Definition st4 (c : claim) := (c_l c, c_r c, c_i c, c_pid c).
 Lemma del_claim_some4 p c : del_claim p = Some c ->
   exists c0, p = Some c0 /\ st4 c = st4 c0 /\ c_del c = true /\ c_fin c = c_fin c0.
 Proof.
-  destruct p as [c0|]; simpl; [|discriminate]. destruct (c_fin c0) eqn:E; [|discriminate].
+  destruct p as [c0|]; simpl; [|discriminate]. destruct (c_fin c0 || c_ffin c0)%bool eqn:E; [|discriminate].
   intros H. injection H as <-. exists c0. repeat split.
 Qed.
 
@@ -170,7 +170,7 @@ Proof.
   destruct (eff_wr (r_pc r) (f_unfin pl)); injection H as <- _ _; simpl;
     (split; [reflexivity|split; [reflexivity|split; [reflexivity|]]]); try apply pc_sum4_refl.
   destruct (r_pc r) as [p|]; [|left; reflexivity].
-  destruct (c_del p) eqn:D; [left; reflexivity|].
+  destruct (c_del p && negb (c_ffin p))%bool eqn:D; [left; reflexivity|].
   right. exists p, (cl_fin p false). repeat split; simpl; auto; try congruence.
 Qed.
 
@@ -179,6 +179,8 @@ Lemma finalize_full k pl s v s' e q : finalize k pl s v = (s', (e, q)) ->
 Proof.
   unfold finalize. intros H.
   destruct (negb (c_fin v)).
+  { injection H as <- _ _. repeat split; try reflexivity. apply pc_sum4_refl. }
+  destruct (match c_r v, c_pid v with RTrue, Some _ => f_list_fin pl | _, _ => false end).
   { injection H as <- _ _. repeat split; try reflexivity. apply pc_sum4_refl. }
   set (r := init_rs s (norm v)) in *.
   assert (Base : forall r1, r_made r1 = made s -> r_ch r1 = ch s -> r_pc r1 = pc s -> forall e1 q1,
@@ -211,7 +213,8 @@ Proof.
       * injection H as <- _ _. simpl. repeat split; try reflexivity. exact PS.
       * apply (Unf _) in H; [exact H|reflexivity|reflexivity|exact PS].
   - destruct (r_nd r) as [nn|] eqn:En.
-    + eapply Base; [| | |exact H]; repeat bm; reflexivity.
+    + destruct (negb (n_del nn) && f_ndel_err pl); [eapply Base; [| | |exact H]; reflexivity|].
+      eapply Base; [| | |exact H]; repeat bm; reflexivity.
     + destruct (c_pid v) as [p|]; [|apply (Unf r); try reflexivity; [apply pc_sum4_refl|exact H]].
       destruct (f_pdel_err pl); [eapply Base; [| | |exact H]; reflexivity|].
       cbv zeta in H.
@@ -423,7 +426,7 @@ Qed.
 Lemma true_del_claim p :
   (l_true (del_claim p) = true -> l_true p = true) /\ (r_true (del_claim p) = true -> r_true p = true) /\
   (i_true (del_claim p) = true -> i_true p = true).
-Proof. destruct p as [c|]; simpl; [destruct (c_fin c); simpl|]; repeat split; intros; try discriminate; auto. Qed.
+Proof. destruct p as [c|]; simpl; [destruct (c_fin c || c_ffin c)%bool; simpl|]; repeat split; intros; try discriminate; auto. Qed.
 
 Lemma step_U k s o s' e q : step k s o = (s', (e, q)) -> invU s ->
   invU s' /\ justified k (made s) (mkFrame o (pc s) e q (pc s') (nd s')).
@@ -437,11 +440,11 @@ Proof.
     split; [|apply justified_noturn; assumption]. constructor; simpl.
     + intros [X|[X|X]]; apply (u_m _ Inv); auto.
     + intros X. destruct (u_l _ Inv X) as [C|C]; [left; rewrite C; reflexivity|].
-      destruct (pc s) as [c|]; [|left; reflexivity]. simpl in *. destruct (c_fin c); [right; exact C|left; reflexivity].
+      destruct (pc s) as [c|]; [|left; reflexivity]. simpl in *. destruct (c_fin c || c_ffin c)%bool; [right; exact C|left; reflexivity].
     + intros X. destruct (u_r _ Inv X) as [C|C]; [left; rewrite C; reflexivity|].
-      destruct (pc s) as [c|]; [|left; reflexivity]. simpl in *. destruct (c_fin c); [right; exact C|left; reflexivity].
+      destruct (pc s) as [c|]; [|left; reflexivity]. simpl in *. destruct (c_fin c || c_ffin c)%bool; [right; exact C|left; reflexivity].
     + intros X. destruct (u_i _ Inv X) as [C|C]; [left; rewrite C; reflexivity|].
-      destruct (pc s) as [c|]; [|left; reflexivity]. simpl in *. destruct (c_fin c); [right; exact C|left; reflexivity].
+      destruct (pc s) as [c|]; [|left; reflexivity]. simpl in *. destruct (c_fin c || c_ffin c)%bool; [right; exact C|left; reflexivity].
   - (* Restart *) split; [|apply justified_noturn; auto]. constructor; simpl; auto.
     intros [X|[X|X]]; [apply (u_m _ Inv); auto|apply (u_m _ Inv); auto|congruence].
   - destruct (made s) eqn:Em; [split; [exact Inv|apply justified_noturn; auto]|].
@@ -453,6 +456,19 @@ Proof.
   - destruct (nd s); (split; [eapply invU_ext; [| | | |exact Inv]; reflexivity|apply justified_noturn; auto]).
   - split; [eapply invU_ext; [| | | |exact Inv]; reflexivity|apply justified_noturn; auto].
   - destruct (dp s); (split; [eapply invU_ext; [| | | |exact Inv]; reflexivity|apply justified_noturn; auto]).
+  - (* ForeignFin *)
+    assert (T : (l_true (set_ffin (pc s) b) = true -> l_true (pc s) = true) /\ (r_true (set_ffin (pc s) b) = true -> r_true (pc s) = true) /\
+                (i_true (set_ffin (pc s) b) = true -> i_true (pc s) = true)).
+    { destruct (set_ffin_cases (pc s) b) as [E|(c & Hc & E)]; rewrite E; [repeat split; discriminate|]. rewrite Hc. simpl. auto. }
+    destruct T as (Tl & Tr & Ti).
+    split; [|apply justified_noturn; assumption]. constructor; simpl.
+    + intros [X|[X|X]]; apply (u_m _ Inv); auto.
+    + intros X. destruct (set_ffin_cases (pc s) b) as [E|(c & Hc & E)]; rewrite E; [left; reflexivity|right].
+      destruct (u_l _ Inv X) as [C|C]; [congruence|]. rewrite Hc in C. exact C.
+    + intros X. destruct (set_ffin_cases (pc s) b) as [E|(c & Hc & E)]; rewrite E; [left; reflexivity|right].
+      destruct (u_r _ Inv X) as [C|C]; [congruence|]. rewrite Hc in C. exact C.
+    + intros X. destruct (set_ffin_cases (pc s) b) as [E|(c & Hc & E)]; rewrite E; [left; reflexivity|right].
+      destruct (u_i _ Inv X) as [C|C]; [congruence|]. rewrite Hc in C. exact C.
 Qed.
 
 Lemma run_justified k ops : forall s, invU s -> all_justified k (made s) (fst (run k s ops)).
@@ -678,7 +694,7 @@ Proof.
     + intros c' Hc' Hq. destruct (P c' Hc') as (c & Hc & Hs). unfold st4 in Hs. injection Hs as _ _ _ E4.
       apply (o_K _ Inv c Hc). congruence.
     + intros v Hv Hd. destruct (o_D _ Inv v Hv Hd) as [C|(p & Hp & Hpv)]; [left; rewrite C; reflexivity|].
-      rewrite Hp. simpl. destruct (c_fin p); [right; eexists; split; [reflexivity|exact Hpv]|left; reflexivity].
+      rewrite Hp. simpl. destruct (c_fin p || c_ffin p)%bool; [right; eexists; split; [reflexivity|exact Hpv]|left; reflexivity].
   - (* Restart *) destruct (o_pc _ Inv) as [A B]. constructor; simpl; auto.
     + intros p Hp Hq. right. intros v Hv _ _. rewrite Hp in Hv. injection Hv as <-. rewrite Hp in B. simpl in B.
       destruct (lcond_eqb (c_l p) LTrue) eqn:E; [apply lcond_eqb_eq; exact E|].
@@ -692,6 +708,18 @@ Proof.
   - destruct (nd s); [|exact Inv]. eapply invO_ext; [| | |exact Inv]; reflexivity.
   - eapply invO_ext; [| | |exact Inv]; reflexivity.
   - destruct (dp s); [exact Inv|]. eapply invO_ext; [| | |exact Inv]; reflexivity.
+  - (* ForeignFin *) destruct (o_pc _ Inv) as [A B].
+    destruct (set_ffin_cases (pc s) b) as [E|(c & Hc & E)].
+    + constructor; simpl; rewrite ?E; simpl; try (split; exact I).
+      * apply Inv.
+      * discriminate.
+      * intros v _ _. left. reflexivity.
+    + rewrite Hc in A, B. simpl in A, B. constructor; simpl; rewrite ?E; simpl.
+      * split; assumption.
+      * apply Inv.
+      * intros p Hp Hq. injection Hp as <-. simpl in Hq. exact (o_K _ Inv c Hc Hq).
+      * intros v Hv Hd. destruct (o_D _ Inv v Hv Hd) as [C|(p & Hp & Hpv)]; [congruence|].
+        right. eexists. split; [reflexivity|]. simpl. congruence.
 Qed.
 
 Lemma run_ordered k ops : forall s, no_expiry_from k s ops = true -> invO s ->
@@ -716,8 +744,8 @@ Proof. intros He. unfold trace. apply (run_ordered k ops init He invO_init). Qed
 (* Without that premise the order can break: a read that is older than the cache TTL, two faults. *)
 Definition order_witness : list op :=
   [Rec status_lost; Sync; Rec okp; NodeAppear true; Tick 3601;
-   Rec (mkPlan WOk PGeneric WOk false HReady WOk WOk false WOk WOk WErr WOk WOk WOk WOk false WOk WOk); Sync;
-   Rec (mkPlan WOk PGeneric WOk false HReady WOk WOk false WOk WOk WOk WOk WOk WOk WOk false WOk WOk)].
+   Rec (mkPlan WOk PGeneric WOk false HReady WOk WOk false WOk WOk WErr WOk WOk WOk WOk false WOk WOk false false); Sync;
+   Rec (mkPlan WOk PGeneric WOk false HReady WOk WOk false WOk WOk WOk WOk WOk WOk WOk false WOk WOk false false)].
 
 Lemma order_refuted :
   option_map (fun c => (c_l c, c_r c)) (pc (final k0 order_witness)) = Some (LFailed, RTrue) /\
